@@ -24,6 +24,26 @@ CHECKS['C08'] = dict(
         '(match loop, stable sorts) tied by correspondence with _sort_execution_orders; harness/c08.py. Axiom-free. Theorems are over exact rationals '
         '(the code only compares/copies prices).',
    tech='Rocq proof over source-regenerated kernels + match-loop model; translation validation; monitors on implementation outputs', ref='DESIGN.md section 6 (C08)')
+CHECKS['C19'] = dict(
+   text='Machine-checked theorems (exact rationals) over the convert_number kernel and the alphabet constant REGENERATED from /repo each run: every '
+        'gene of the 80-letter alphabet decodes into [min,max], monotonically, first letter -> min, last -> max; int parameters with integer bounds '
+        'give in-range integers (round-half-even model), position-locality of dna_to_hp, and precedence explicit > dna() > defaults. The zip loop '
+        'and precedence are a hand model tied by bit-exact correspondence with helpers.dna_to_hp and by 8 real research.backtest sessions that record '
+        'self.hp. The binary64 end-point clause is refuted by a kernel-evaluated witness (known finding F6); a Coq monitor checks all clauses on the '
+        'implementation values for the whole alphabet.',
+   note='Trusted: Coq kernel + vm_compute (PrimFloat primitives for the float witness/correspondence), translator py2v (validated bit-for-bit), '
+        'Model/Hp.v, harness/c19.py. Range/monotonicity theorems are exact-arithmetic statements; binary64 rounding is covered by the monitor only.',
+   tech='Rocq proof over source-regenerated kernel + correspondence + monitor on implementation outputs', ref='DESIGN.md section 6 (C19)')
+CHECKS['C17'] = dict(
+   text='Machine-checked theorems (exact rationals) over size_to_qty, risk_to_qty, risk_to_size, limit_stop_loss, floor_with_precision and the timeframe '
+        'tables REGENERATED from /repo each run: cost incl. fees <= capital, risk <= requested share, at most one precision step below the exact quotient, '
+        'stop-loss limiting never widens risk, live-mode rounding never rounds up except to the minimum unit, both timeframe tables agree, '
+        'max_timeframe returns a longest member, anchor_timeframe is strictly longer. Binary64 overshoot is refuted by a kernel-evaluated witness '
+        '(known findings F5/F5r/F5l). Coq monitors in exact arithmetic run on the implementation outputs; fresh real Spot/Futures accounts must accept '
+        'the computed quantity; decimal helpers are tested against exact decimal arithmetic (tested, not proved).',
+   note='Trusted: Coq kernel + vm_compute, translator py2v (validated bit-for-bit), Model/Rounding.v (numpy scalar path, corresponded), harness/c17.py + '
+        'driver.py. sum_floats/subtract_floats decimal exactness is search-only. Fee rates above 1/3 excluded in the risk_to_qty theorem.',
+   tech='Rocq proof over source-regenerated kernels + translation validation + exact-arithmetic monitors on implementation outputs', ref='DESIGN.md section 6 (C17)')
 NA = {}
 def main():
     props = [json.loads(l)['id'] for l in open(f'{V}/properties.jsonl')]
